@@ -530,6 +530,8 @@ def assemble(unit, drop_hints=()):
 def _without_hints(x):
     import copy
     y = copy.copy(x)
-    y.hints = []
-    y.pre = None
+    # keep ghost declarations (invariants may mention them); drop everything that asserts
+    y.hints = [h for h in x.hints if "assert" not in h[2] and "lemma" not in h[2]]
+    if x.pre and ("assert" in x.pre or "lemma" in x.pre):
+        y.pre = " ".join(p for p in x.pre.split(";") if "assert" not in p and "lemma" not in p and p.strip()) + ";" if "let ghost" in x.pre else None
     return y
